@@ -67,6 +67,20 @@ Seal ==
   /\ UNCHANGED cfg
   /\ PrintT(<<"CORPUS", ToJson(cfg)>>)
 
+\* Bounded-instance helper: "at most one variant is wider than two fields, and
+\* then every other variant is `V` or `V(x)`".  MayWiden prunes while building,
+\* WideOK is the matching Seal-time condition.
+WideOK(c) ==
+  \A v \in 1..NVariants(c) : NFields(c, v) > 2 =>
+     \A w \in 1..NVariants(c) : w # v => (NFields(c, w) <= 1 /\ c.variants[w].style # "named")
+MayWiden(c) ==
+  LET n == NVariants(c)
+      lv == Last(c.variants)
+      othersNarrow == \A w \in 1..(n - 1) : NFields(c, w) <= 1 /\ c.variants[w].style # "named"
+      someWide == \E w \in 1..(n - 1) : NFields(c, w) > 2
+  IN /\ Len(lv.fields) >= 2 => othersNarrow
+     /\ someWide => (Len(lv.fields) < 1 /\ lv.style # "named")
+
 BuildNext ==
   \/ \E k \in KindSet : \E o \in TypeOptSet(k) : Start(k, o)
   \/ \E vo \in VarOptSet(cfg) : AddVariant(vo)
